@@ -181,7 +181,7 @@ def gen_three_level(tier):
     import pymbolic.primitives as p
     a, b, c = p.Variable("a"), p.Variable("b"), p.Variable("c")
     fill = [a, b, c, -3]
-    names = REDUCED if tier == "thorough" else REDUCED[:11]
+    names = list(A) if tier == "thorough" else REDUCED[:11]       # thorough: the full alphabet (every form in every position, three deep)
     for n1 in names:
         ar1, b1 = A[n1]
         for p1 in range(ar1):
@@ -284,8 +284,8 @@ def b_two(tier):
 
 
 def b_three(tier):
-    b = BoundedRun("three-level", rule="every three-level nesting parent[pos] <- middle[pos] <- inner over a reduced alphabet of 16 (thorough) / 11 (quick) forms: same round-trip "
-                   "judgement", bound="depth 3, exhaustive over the reduced alphabet", functions=["StringifyMapper.map_*", "Parser"])
+    b = BoundedRun("three-level", rule="every three-level nesting parent[pos] <- middle[pos] <- inner over the full alphabet of 39 forms (thorough) / a reduced alphabet of 11 "
+                   "forms (quick): same round-trip judgement", bound="depth 3, exhaustive over the (reduced) alphabet", functions=["StringifyMapper.map_*", "Parser"])
     fns = ["StringifyMapper", "Parser"]
     for label, e in gen_three_level(tier):
         roundtrip(b, label, e, fns)
